@@ -25,6 +25,7 @@ def run(ctx):
     ctx.tlc_mc("MC_Frag", "MC_Frag_big.cfg" if T else "MC_Frag.cfg", coverage=T)
     ctx.tlc_mc("MC_Frag", "MC_Frag_mutWrap.cfg", expect_violation=True)
     ctx.tlc_mc("MC_Frag", "MC_Frag_mutDup.cfg", expect_violation=True)
+    ctx.tlc_mc("MC_Frag", "MC_Frag_mutReusePktID.cfg", expect_violation=True)
     scns = ctx.tlc_gen("MC_Frag", "Gen_Frag.cfg", num=3000 if T else 300, depth=12)
     ctx.write_scenarios("frag", scns)
     ctx.go_test("core", "./internal/frag/", "TestVerif_C05$", ["harness/core/internal/frag/c05_test.go"])
